@@ -173,6 +173,22 @@ Qed.
 Lemma gen_set_child_ok : forall c r, gen_way_set_child c r = set_ref c r /\ gen_relation_set_child c r = set_ref c r.
 Proof. intros c r. split; reflexivity. Qed.
 
+(* which references Compute handles: Refs() marks a reference as annotated by this rule and
+   mapChildLocs skips it by this condition — together the model's [filtered_out], for way nodes and
+   for relation members; and the threshold used when the caller passes none *)
+Lemma gen_skip_ref_ok : forall filter r,
+  gen_skip_ref (gen_way_annotated r) filter (r_id r) = filtered_out filter r /\
+  gen_skip_ref (gen_relation_annotated r) filter (r_id r) = filtered_out filter r.
+Proof.
+  intros filter r. unfold gen_skip_ref, gen_way_annotated, gen_relation_annotated, filtered_out,
+    filter_is_some, filter_app.
+  destruct filter as [f|]; split; destruct (r_version r =? 0) eqn:E; cbn [negb andb];
+    try reflexivity; destruct (f (r_id r)); reflexivity.
+Qed.
+
+Lemma gen_default_threshold_ok : gen_default_threshold = 30 * 60 * 1000000000.
+Proof. reflexivity. Qed.
+
 (* everything together *)
 Theorem generated_code_is_model :
   (forall a b, gen_less_index a b = less a b) /\
@@ -185,11 +201,15 @@ Theorem generated_code_is_model :
   (forall cis current cl np o,
      gen_next_version_index cis current cl np o = res_map Z.of_nat (next_version_index cis current cl np o)) /\
   (forall c r, gen_way_set_child c r = set_ref c r /\ gen_relation_set_child c r = set_ref c r) /\
+  (forall filter r, gen_skip_ref (gen_way_annotated r) filter (r_id r) = filtered_out filter r /\
+                    gen_skip_ref (gen_relation_annotated r) filter (r_id r) = filtered_out filter r) /\
+  gen_default_threshold = 30 * 60 * 1000000000 /\
   unix_nanos gen_commit_info_start_args = Some 1347442203000000000.
 Proof.
   split; [exact gen_less_index_ok|]. split; [exact gen_update_timestamp_ok|].
   split; [exact gen_child_update_ok|]. split; [exact gen_time_threshold_ok|].
   split; [exact gen_time_threshold_parent_ok|]. split; [exact gen_find_visible_ok|].
   split; [exact gen_version_before_ok|]. split; [exact gen_next_version_index_ok|].
-  split; [exact gen_set_child_ok|]. exact commit_info_start_ok.
+  split; [exact gen_set_child_ok|]. split; [exact gen_skip_ref_ok|]. split; [exact gen_default_threshold_ok|].
+  exact commit_info_start_ok.
 Qed.
